@@ -7,15 +7,18 @@ V_TRUST = "Trusted: Verus 0.2026.09.13 / Z3; the prelude's external_body contrac
 claim(
     "C01",
     "other",
-    "Partial (mechanisms 1 and 3 of 4). Unbounded proof (Verus, requires/ensures/invariant/decreases on the function text extracted by span "
-    "from parse/base.rs and parse/sass.rs on every run) that 19 BaseParser scanner methods and the two indented-syntax overrides terminate on every "
-    "token buffer, keep the cursor inside the buffer, never modify the buffer, satisfy the progress clauses their callers' measures need, never overflow "
-    "the hex accumulators and never fail char::from_u32(..).unwrap() / hex_char_for's precondition. The Lexer interface and the leaf methods Verus "
+    "Partial (mechanisms 1 and 3 of 4). Unbounded proof (Verus, requires/ensures/invariant/decreases on the function text extracted by span on every run "
+    "from parse/base.rs, sass.rs, stylesheet.rs, media_query.rs, keyframes.rs, at_root_query.rs and value.rs: 7 units, 50 functions) that the scanner layer of all "
+    "three syntaxes - BaseParser's 20 scanning methods incl. declaration_value, the indented syntax's overrides, indentation look-ahead and comment parsers, the "
+    "stylesheet parser's interpolation/comment/url/string/almost-any-value/declaration-value scanners, the media-query, keyframes-selector and @at-root query parsers, "
+    "the number-literal scanners - terminates on every token buffer, keeps the cursor inside the buffer, never modifies the buffer, satisfies the progress clauses its "
+    "callers' measures need, has no integer overflow/underflow, and never reaches an unwrap()/unreachable!()/todo!()/raw_text/hex_char_for/char::from_u32().unwrap() "
+    "precondition failure; relative to one assumed, undischarged contract (the expression parser does not move the cursor backwards or touch the buffer). The Lexer interface and the leaf methods Verus "
     "cannot take (expect_char, scan, scan_ident_char, consume/expect_identifier) are discharged by Kani on the real code (bounded: buffer <= 4 tokens, "
     "loop-free functions); the char helpers and std specifications over all char/u32 (complete). Number::convert's precondition (table entry exists) "
     "is discharged at its call sites in sass_number.rs (all 37x37 simple unit pairs), Value::cmp and clamp() (unit representatives). Level 'other' "
     "because some obligations are bounded stand-ins; they are listed as such in the evidence and not counted as proved. NOT covered: the recursive-descent "
-    "parsers proper, evaluation, serialization, the 226 unwrap/unreachable sites outside the scanners, min()/max(), bin_op.rs, non-UTF-8 input, imports.",
+    "statement/expression parsers proper (stylesheet.rs parse_statement.., value.rs parse_value..), selector parser, evaluation, serialization, the unwrap/unreachable sites outside the functions listed, min()/max(), bin_op.rs, non-UTF-8 input, imports.",
     K_TRUST + " " + V_TRUST,
     "Verus loop/termination contracts on extracted functions + Kani call-site contracts",
     "DESIGN.md 5/C01",
@@ -73,10 +76,11 @@ claim(
 claim(
     "C16",
     "other",
-    "Partial (mechanisms 2 and 3 of 4, clamp() only for mech 2). parenthesize_calculation_rhs: for all 16 operator pairs, dropping the parentheses the printer omits preserves the value "
-    "(complete over the operator domain). clamp(): over unit triples from the class representatives {none,px,in,em,deg}: never violates Number::convert's precondition, reduces only for mutually "
+    "Partial (mechanisms 1-3 of 4; min()/max() not). parenthesize_calculation_rhs: for all 16 operator pairs, dropping the parentheses the printer omits preserves the value "
+    "(complete over the operator domain). operate_internal on concrete operand pairs: convertible operands fold to the number ordinary arithmetic gives, an unsimplifiable a+b / a-b keeps the left operand "
+    "and its sign-normalised `op' n'` equals `op n` with n' >= 0. clamp(): over unit triples from the class representatives {none,px,in,em,deg}: never violates Number::convert's precondition, reduces only for mutually "
     "convertible units, result is one of the arguments and (for min <= max) lies in the range, otherwise the arguments are kept in order. One known finding is reported (inverted range, dart-sass parity). "
-    "NOT covered: min()/max() and operate_internal (recursive drop glue of heap-stored CalculationArg: CBMC does not finish), printing, parsing.",
+    "NOT covered: min()/max() (recursive drop glue of heap-stored CalculationArg: CBMC does not finish), the serializer's use of the parenthesisation rule (write_calculation_arg), parsing.",
     K_TRUST + " verify_compatible_numbers stubbed (always Ok) in the clamp harnesses.",
     "Kani call-site contracts (straight-line harnesses over unit representatives)",
     "DESIGN.md 5/C16",
@@ -95,7 +99,8 @@ claim(
 claim(
     "C18",
     "other",
-    "Narrow (mechanism 2 of 5 only). TokenLexer::next on all 156 strings of <= 3 characters over {a, LF, CR, FF, e-acute}: never yields a CR or FF token, token kinds equal the text with CRLF/CR/FF replaced by LF, "
+    "Narrow (mechanism 2 of 5, plus the indented syntax's own indentation scanner of mechanism 1). Verus: SassParser's indentation look-ahead (peek/read_indentation, comment and selector-list scanners) "
+    "terminates, keeps its cache invariant and computes the width of the last line scanned (functional postcondition). Kani: TokenLexer::next on all 156 strings of <= 3 characters over {a, LF, CR, FF, e-acute}: never yields a CR or FF token, token kinds equal the text with CRLF/CR/FF replaced by LF, "
     "positions are increasing byte offsets of the original text with pos + len_utf8 <= len. Bounded stand-in. NOT covered: SCSS vs indented vs CSS agreement (a relation between whole parses), "
     "whitespace/comment insertion, BOM/@charset, `_`/`-` normalisation (interner not executable under Kani).",
     K_TRUST,
